@@ -142,6 +142,21 @@ impl Image {
         Ok(img)
     }
 
+    /// Replay journal[0..k], then the first `cut` bytes of the write call journal[k]: the process
+    /// died (or the power went) inside that call.  `None` when journal[k] is not a write or `cut`
+    /// is not strictly inside it.
+    pub fn from_prefix_torn(root: &Path, journal: &[Rec], k: usize, cut: usize) -> Option<Image> {
+        let Some(Rec::Write { ino, offset, data, path }) = journal.get(k) else { return None };
+        if cut == 0 || cut >= data.len() {
+            return None;
+        }
+        let mut img = Image::from_prefix(root, journal, k).ok()?;
+        let f = img.files.entry(*ino).or_default();
+        f.writes.push((k, *offset, data[..cut].to_vec()));
+        img.names.entry(rel(root, path)).or_insert(*ino);
+        Some(img)
+    }
+
     /// Inodes that have unsynced writes and are still reachable by a name.
     pub fn unsynced_files(&self) -> Vec<(u64, Vec<usize>)> {
         let live: BTreeSet<u64> = self.names.values().copied().collect();
